@@ -122,6 +122,23 @@ def is_fresh(ctx: Ctx, f: FunctionInfo, e: Optional[ast.AST], at: int, depth: in
         allfresh = True
         for d in defs:
             if d == g.entry:
+                # `def name(stem, token=None): if token is None: token = uuid4().hex[:8]` called without the argument: the
+                # parameter's own value (None) never reaches the use - the guarded re-assignment does
+                par = next((p_ for p_ in f.params if p_.name == nm), None)
+                if par is not None and isinstance(par.default, ast.Constant) and par.default.value is None and len(defs) > 1:
+                    sites = ctx.eff.call_sites.get(f.qname, [])
+                    omitted = bool(sites) and all(
+                        (lambda a_: a_ is None or (isinstance(a_, ast.Constant) and a_.value is None))(
+                            ctx.eff.bind_arg(n_.ast, f, nm, isinstance(n_.ast.func, ast.Attribute)) if isinstance(n_.ast, ast.Call) else None)
+                        for _c, n_ in sites)
+                    guarded = any(b.kind == "branch" and isinstance(b.ast, ast.Compare) and isinstance(b.ast.left, ast.Name) and b.ast.left.id == nm
+                                  and isinstance(b.ast.ops[0], ast.Is) and isinstance(b.ast.comparators[0], ast.Constant)
+                                  and b.ast.comparators[0].value is None
+                                  and any(d2 != g.entry and d2 in [t_ for t_, l_ in g.succ[b.id] if l_ == "true"] + [
+                                      t2 for t_, l_ in g.succ[b.id] if l_ == "true" for t2, _l2 in g.succ[t_]] for d2 in defs)
+                                  for b in g.nodes)
+                    if omitted and guarded:
+                        continue
                 if penv is not None and nm in penv:
                     if not penv[nm]:
                         allfresh = False
@@ -293,6 +310,9 @@ def r3(ctx: Ctx) -> None:
             pa = path_arg(n)
             w = ctx.calls(f, name="_write_metadata_file")
             same = bool(w) and pa is not None and names_in(pa) & names_in(path_arg(w[0]))
+            if w and pa is not None and not same:
+                from .common import same_value
+                same = same_value(ctx, f, pa, n.id, path_arg(w[0]), w[0].id)  # the same path re-spelled in another helper
             dom = ctx.dom(f)
             ctx.ob("C09.R3", f, "cleanup deletes exactly the file this call wrote", n,
                    bool(same) and any(x.id in dom.get(n.id, set()) for x in w),
